@@ -906,7 +906,76 @@ def shard_copies(acc, shard, nshards, params):
           deadline=deadline)
 
 
-CASES = {"pair": case_pair, "triple": case_triple, "single": case_single, "payload_empty": case_payload_empty,
+
+# ---------------------------------------------------------------------------
+# two trees with DIFFERENT leaf defaults: each side's content is judged against its own default
+
+DD_VALUES = (None, 0, 7, 4)          # None = absent; 0 and 7 are the two defaults in play, 4 is a value for both
+
+
+def _dd_build(cells, d, depth, owned):
+    def leaf(row):
+        cs = [i for i, v in enumerate(row) if v is not None]
+        return Fiber(cs, [row[i] for i in cs], default=d)
+    if depth == 1:
+        f = leaf(cells)
+        ids_ = ["K"]
+    else:
+        cs = [i for i, row in enumerate(cells) if row is not None]
+        f = Fiber(cs, [leaf(cells[i]) for i in cs])
+        ids_ = ["M", "K"]
+    if owned:
+        return Tensor.fromFiber(ids_, f, default=d)
+    return f
+
+
+def _dd_content(cells, d, depth):
+    if depth == 1:
+        return {(i,): v for i, v in enumerate(cells) if v is not None and v != d}
+    return {(m, i): v for m, row in enumerate(cells) if row is not None for i, v in enumerate(row) if v is not None and v != d}
+
+
+def case_diff_defaults(case):
+    a, b, d1, d2, depth, owned = case
+    feats = {"different_leaf_defaults" if d1 != d2 else "same_leaf_default", "depth:%d" % depth, "owned" if owned else "unowned"}
+    exp = _dd_content(a, d1, depth) == _dd_content(b, d2, depth)
+    out = []
+    try:
+        x, y = _dd_build(a, d1, depth, owned), _dd_build(b, d2, depth, owned)
+        r1, r2 = (x == y), (y == x)
+        if r1 != exp:
+            out.append(("eq", "verdict", feats | {"expected:" + str(exp)}, exp, r1))
+        elif r2 != r1:
+            out.append(("eq", "asymmetric", feats, r1, r2))
+        if (x != y) != (not r1):
+            out.append(("ne", "not-the-negation-of-eq", feats, not r1, x != y))
+        if exp:
+            core.CUR.nt("diff_defaults")
+    except Exception as ex:
+        _exc(out, "eq", feats, ex, exp)
+    return out
+
+
+def shard_diff_defaults(acc, shard, nshards, params):
+    quick, = params
+    rows = list(itertools.product(DD_VALUES, repeat=2))
+
+    def gen():
+        for d1, d2 in ((0, 7), (7, 0)):
+            for owned in (False, True):
+                u1 = list(itertools.product(DD_VALUES, repeat=3))
+                for a in u1:
+                    for b in u1:
+                        yield (a, b, d1, d2, 1, owned)
+                u2 = [(r1, r2) for r1 in [None] + rows for r2 in [None] + rows[:8 if quick else 16]]
+                for a in u2:
+                    for b in u2:
+                        yield (a, b, d1, d2, 2, owned)
+    core.drive(acc, "diff_defaults", case_diff_defaults, gen(), shard, nshards,
+               family="pairs-with-different-leaf-defaults[1-D over 3, 2x2]")
+
+
+CASES = {"diff_defaults": case_diff_defaults, "pair": case_pair, "triple": case_triple, "single": case_single, "payload_empty": case_payload_empty,
          "edited": case_edited, "owner_default": case_owner_default, "observe_mutate": case_observe_mutate,
          "copies": case_copies}
 
@@ -975,6 +1044,10 @@ def run(ctx):
     if not getattr(ctx, "only", None) or "edited" in ctx.only:
         ctx.shards(shard_edited, (A12, 0))
         ctx.shards(shard_owner_default, None)
+        ctx.shards(shard_diff_defaults, (q,))
+        ctx.bounds["different-defaults"] = ("all ordered pairs of 1-D fibers over 3 coordinates and of 2x2 trees with cells {absent, 0, 7, 4}, "
+                                            "the left tree built with leaf default 0 and the right with 7 (and vice versa), unowned and as "
+                                            "tensors: == (both orders) and != against equality of the contents, each judged by its own default")
         ctx.shards(shard_observe_mutate, None)
         ctx.shards(shard_edited, (A7, 7))
     for d, a, v, df, bdf, cap in copies:
